@@ -111,7 +111,7 @@ Definition lookup (tbl : list method) (n : string) : option method :=
    the shared fields or calls other workers *)
 Definition worker_event_ok (tbl : list method) (e : event) : bool :=
   match e with
-  | ReadField _ | WriteField _ | Return => true
+  | ReadField _ | WriteField _ | UseArg _ | Return => true
   | CallWorker w => match lookup tbl w with Some m => negb (m_exported m) | None => false end
   | _ => false
   end.
@@ -119,11 +119,13 @@ Definition worker_event_ok (tbl : list method) (e : event) : bool :=
 Definition worker_ok (tbl : list method) (m : method) : bool :=
   negb (m_exported m) && forallb (fun p => forallb (worker_event_ok tbl) p) (m_paths m).
 
-(* inside the critical section: accesses and worker calls until the Unlock, then nothing but Return *)
+(* inside the critical section: accesses, uses of reference-typed arguments and worker calls until the Unlock, then
+   nothing but Return.  Arguments are used INSIDE the section only: what a call does to caller-shared memory (e.g.
+   tx.Hash() filling the Tx's unsynchronised memo) is then serialised with every other call on the same filter. *)
 Fixpoint inside_ok (tbl : list method) (p : list event) : bool :=
   match p with
   | Unlock :: rest => match rest with [Return] => true | _ => false end
-  | (ReadField _ | WriteField _) :: rest => inside_ok tbl rest
+  | (ReadField _ | WriteField _ | UseArg _) :: rest => inside_ok tbl rest
   | CallWorker w :: rest =>
       match lookup tbl w with Some m => worker_ok tbl m && inside_ok tbl rest | None => false end
   | _ => false
@@ -163,7 +165,7 @@ Fixpoint reads_only (fuel : nat) (tbl : list method) (w : string) : bool :=
       | Some m =>
           negb (m_exported m) &&
           forallb (fun p => forallb (fun e => match e with
-                                              | ReadField _ | Return => true
+                                              | ReadField _ | UseArg _ | Return => true
                                               | CallWorker w' => reads_only k tbl w'
                                               | _ => false
                                               end) p) (m_paths m)
@@ -174,7 +176,7 @@ Fixpoint reads_only (fuel : nat) (tbl : list method) (w : string) : bool :=
 Fixpoint shared_inside_ok (tbl : list method) (p : list event) : bool :=
   match p with
   | RUnlock :: rest => match rest with [Return] => true | _ => false end
-  | ReadField _ :: rest => shared_inside_ok tbl rest
+  | (ReadField _ | UseArg _) :: rest => shared_inside_ok tbl rest
   | CallWorker w :: rest => reads_only (S (List.length tbl)) tbl w && shared_inside_ok tbl rest
   | _ => false
   end.
@@ -193,6 +195,13 @@ Definition bloom_documented_safe : list string :=
 Definition has_exported (tbl : list method) (n : string) : bool :=
   match lookup tbl n with Some m => m_exported m | None => false end.
 
+(* constructors of an immutable type must not store (an alias of) a reference-typed parameter in a field: the value
+   would change when the caller reuses its buffer.  [inits] = (function, field, parameters flowing into the value) *)
+Definition no_aliasing_inits (inits : list (string * string * list string)) : bool :=
+  forallb (fun i => match snd i with [] => true | _ => false end) inits.
+Definition has_init (inits : list (string * string * list string)) (fn : string) : bool :=
+  existsb (fun i => String.eqb (fst (fst i)) fn) inits.
+
 (* GCS filters are immutable: no method writes a field, hands the receiver on, or touches anything the
    translator could not follow; the byte array leaves the receiver only towards bytes.Buffer.Write (which
    copies) and the builtin copy (as its source) *)
@@ -200,7 +209,7 @@ Definition gcs_readers : list string := ["buffer.Write"].
 
 Definition gcs_event_ok (tbl : list method) (e : event) : bool :=
   match e with
-  | ReadField _ | Return => true
+  | ReadField _ | UseArg _ | Return => true
   | CallWorker w => match lookup tbl w with Some _ => true | None => false end
   | PassField _ callee => existsb (String.eqb callee) gcs_readers
   | _ => false
@@ -212,11 +221,12 @@ Definition gcs_method_private (tbl : list method) (m : method) : bool :=
 Definition gcs_queries : list string := ["Match"; "MatchAny"; "ZipMatchAny"; "HashMatchAny"].
 
 (* a query starts by taking a private copy of the filter bytes (f.Bytes()) on every path that reads anything *)
-Definition starts_with_copy (p : list event) : bool :=
-  match p with
+Definition is_usearg (e : event) : bool := match e with UseArg _ => true | _ => false end.
+Definition starts_with_copy (p0 : list event) : bool :=
+  match filter (fun e => negb (is_usearg e)) p0 with   (* looking at the arguments is not reading the filter *)
   | [Return] => true
   | CallWorker "Bytes" :: _ => true
-  | _ => forallb (fun e => match e with CallWorker _ | Return => true | _ => false end) p   (* pure delegation: MatchAny *)
+  | p => forallb (fun e => match e with CallWorker _ | Return => true | _ => false end) p   (* pure delegation: MatchAny *)
   end.
 
 Definition no_direct_array_access (p : list event) : bool :=
